@@ -122,7 +122,8 @@ def sort_no_duplicates(z3_int_list):
     n = len(z3_int_list)
     a = [z3.FreshInt() for _ in range(n)]
     constraints = [z3.Or([a[i] == z3_int_list[j] for j in range(n)]) for i in range(n)]
-    constraints.append(z3.And([a[i] < a[i + 1] for i in range(n - 1)]))
+    if n > 1:  # nothing to order otherwise
+        constraints.append(z3.And([a[i] < a[i + 1] for i in range(n - 1)]))
     return a, constraints
 
 
